@@ -23,4 +23,11 @@ VARIANTS = [
     T("order-key-tuple", "shape.ConnectedShape.subshapes:set", "algori = lambda pair: pair[0]", "algori = lambda pair: (pair[0],)"),
     T("empty-removal-comprehension", "shape.DisjointShape.__new__", "while EmptyShape() in subshapes:\n        subshapes.remove(EmptyShape())",
       "subshapes = [s for s in subshapes if s is not EmptyShape()]"),
+    # higher-order spellings (normalised at parse time, verifkit/funcnorm.py)
+    T("disjoint-area-by-reduce", "shape.DisjointShape.__float__", "total = 0\n    for subshape in self.subshapes:\n        total += float(subshape)\n    return float(total)",
+      "total = functools.reduce(operator.add, map(float, self.subshapes), 0)\n    return float(total)"),
+    M("disjoint-area-by-reduce-of-abs", "shape.DisjointShape.__float__", "total = 0\n    for subshape in self.subshapes:\n        total += float(subshape)\n    return float(total)",
+      "total = functools.reduce(operator.add, map(abs, map(float, self.subshapes)), 0)\n    return float(total)", ["R19.1b", "R19.1"]),
+    M("disjoint-area-by-reduce-skips-first", "shape.DisjointShape.__float__", "total = 0\n    for subshape in self.subshapes:\n        total += float(subshape)\n    return float(total)",
+      "total = functools.reduce(operator.add, map(float, self.subshapes[1:]), 0)\n    return float(total)", ["R19.1b", "R19.1"]),
 ]
